@@ -23,6 +23,11 @@
    connections that could not be matched to the end. *)
 EXTENDS WsEndpoint, Json, IOUtils
 
+CONSTANT OutLevel   \* "frames": the server's output must be the model's frames one by one (today's code: one final frame
+                    \*           per message) and end with a clean end of stream;
+                    \* "messages": the statement itself - a well-formed frame sequence carrying the same messages, Pongs
+                    \*           and Close in the same order, however the messages are cut into frames
+
 Rec == ndJsonDeserialize(IOEnv.TRACE)
 
 VARIABLES case, l
@@ -39,11 +44,26 @@ ToSet(s) == { s[i] : i \in 1..Len(s) }
 \* the payload of a Close reply is not prescribed by the property: compare Close frames up to their payload
 NormClose(e) == IF e.op = "close" /\ WellFormedFrame(e) THEN [e EXCEPT !.pay = <<>>, !.len = 0] ELSE e
 
+\* a frame sequence as what it carries: data messages (fragments joined, placed where they complete), Pings/Pongs with
+\* their payload, Close; a message left open at the end is kept as such
+RECURSIVE Items(_, _, _)
+Items(fs, cur, acc) ==
+  IF fs = <<>> THEN (IF cur = <<>> THEN acc ELSE Append(acc, [op |-> "unfinished", pay |-> cur[1].pay]))
+  ELSE LET f == fs[1] IN
+       IF f.op \in CtlOps
+       THEN Items(Tail(fs), cur, Append(acc, [op |-> f.op, pay |-> IF f.op = "close" THEN <<>> ELSE f.pay]))
+       ELSE LET m == IF cur = <<>> THEN [op |-> f.op, pay |-> f.pay]
+                     ELSE [op |-> cur[1].op, pay |-> Cat(cur[1].pay, f.pay)]
+            IN IF f.fin THEN Items(Tail(fs), <<>>, Append(acc, m)) ELSE Items(Tail(fs), <<m>>, acc)
+
 OutMatches ==
-  /\ E.end = "eof"
+  /\ E.end # "timeout"
   /\ WellFormedOut(E.frames)
-  /\ Len(E.frames) = Len(srvOut)
-  /\ \A i \in 1..Len(srvOut) : NormClose(E.frames[i]) = NormClose(srvOut[i])
+  /\ IF OutLevel = "frames"
+     THEN /\ E.end = "eof"
+          /\ Len(E.frames) = Len(srvOut)
+          /\ \A i \in 1..Len(srvOut) : NormClose(E.frames[i]) = NormClose(srvOut[i])
+     ELSE Items(E.frames, <<>>, <<>>) = Items(srvOut, <<>>, <<>>)
   /\ hs = "open" => dropped
 
 RetStep ==
